@@ -33,7 +33,9 @@ ASSUMPTIONS = ["sequential calls on one handle (concurrent calls on one handle a
 
 CALLS = ["ack", "nack", "reject", "reschedule", ["retry", None], ["retry", 2 * S], ["forceRetry", None], ["forceRetry", 3 * S]]
 CATS = ["NORMAL", "DELAYED", "DEAD"]
-RETRY_STATES = [{"max": 0, "tried": 0}, {"max": 2, "tried": 1}, {"max": 2, "tried": 2}]
+RETRY_STATES = [{"max": 0, "tried": 0}, {"max": 2, "tried": 1}, {"max": 2, "tried": 2},
+                # the counter above the budget (a message that was force-retried before)
+                {"max": 0, "tried": 1}, {"max": 2, "tried": 4}]
 
 
 def err_kind(e: Exception) -> str:
@@ -103,9 +105,14 @@ def check_sequences(results: list[dict], model: Model, res: Result) -> None:
         weird = [o for o in r["obs"] if str(o[0]) not in ("ok", "err")]
         after_ok_all_refused = not oks or all(str(o[0]) == "err" for o in r["obs"][oks[0] + 1:])
         ok = len(oks) <= 1 and not weird and after_ok_all_refused and (r["read_only"] == bool(oks))
-        # refusals must leave the handle usable: a permitted call after refusals only must succeed
-        if not oks and not weird:
-            pass
+        # "retry is refused … once the retry budget is spent" (also when the counter is already above it)
+        for i, c in enumerate(r["seq"]):
+            name = c if isinstance(c, str) else c[0]
+            if name == "retry" and r["cat"] == "NORMAL" and r["rs"]["tried"] >= r["rs"]["max"] and not [k for k in oks if k < i] \
+                    and str(r["obs"][i][0]) == "ok":
+                res.bad("impl", "retry() was accepted although the retry budget is spent", case=dict(case, call_index=i),
+                        observed=obs, expected="refused (the message stays usable)")
+                break
         if not ok:
             res.bad("impl", "handle is not single-use / a refused call touched the broker or consumed the handle", case=case,
                     observed=obs, expected="at most one broker call; every later call refused; read_only iff a call succeeded")
